@@ -283,8 +283,10 @@ class Exec(ExprMixin, StmtMixin, CallMixin):
         for g, k in c.get('ghost', {}).items():
             p.env[g] = self.make_value(k, g, p)
         for src in c.get('requires', []):
-            name, src = src if isinstance(src, tuple) else ('', src)
-            p.assume(self.spec_eval(src, p))
+            only_for = src[2] if isinstance(src, tuple) and len(src) > 2 else None      # postconditions this precondition is meant for (hypothesis slicing only)
+            name, src = (src[0], src[1]) if isinstance(src, tuple) else ('', src)
+            t = self.spec_eval(src, p); p.assume(t)
+            if only_for: p.tags[t.get_id()] = 'lemmafor:' + ','.join(only_for)
         if hasattr(self, 'entry_hook'): self.entry_hook(p, c)
         # vacuity guard: the precondition must be satisfiable
         self.vcs.append(VC('cover/requires', list(p.pc), z3.BoolVal(False), 'cover', fn.lines[0], fn.key, expect='sat'))
@@ -309,7 +311,10 @@ class Exec(ExprMixin, StmtMixin, CallMixin):
                     for i, src in enumerate(c.get('ensures', [])):
                         name, src = src if isinstance(src, tuple) else ('ens%d' % i, src)
                         t = self.spec_eval(src, q)
-                        self.vcs.append(VC('post/' + name, list(q.pc), t, 'post', fn.lines[1], fn.key))
+                        v = VC('post/' + name, list(q.pc), t, 'post', fn.lines[1], fn.key)
+                        # lemma instances declared for particular postconditions are left out (in the first attempt) when proving the others
+                        v.drop = tuple(i for i, h in enumerate(q.pc) if q.tags.get(h.get_id(), '').startswith('lemmafor:') and name not in q.tags[h.get_id()][9:].split(','))
+                        self.vcs.append(v)
                 finally: self.old_stack.pop()
                 if c.get('pure') or getattr(self, 'force_pure', False): self.frame_check(pre, q, fn)
                 # list parameters are the caller's objects: a function may not change them unless its contract says so
@@ -562,7 +567,7 @@ def _verify_lemma(self, name, L):
         d = dict(self.global_defs); d.update(c.get('defs', {})); d.update(overrides)
         out = []
         for i, src in enumerate(c.get(which, [])):
-            nm, src = src if isinstance(src, tuple) else ('%s%d' % (which, i), src)
+            nm, src = (src[0], src[1]) if isinstance(src, tuple) else ('%s%d' % (which, i), src)
             if only is not None and nm not in only: continue
             cl = _Cl(nm, src, q, d); cl.overridden = bool(overrides); out.append(cl)
         if not out: raise StaleContract('lemma %s: %s has no %s clauses' % (name, key, which))
@@ -653,10 +658,16 @@ def _use_lemma(self, name, binding, p, where, conditional=False, forall=None):
             guard = (lambda t: z3.Implies(z3.And(*hyps), t) if hyps else t) if conditional else (lambda t: t)
             if jv is not None:
                 g0 = guard; guard = lambda t: z3.ForAll(jv, g0(t))
-            if 'induct' in L: p.assume(guard(self.induct_fact(L, q)))
+            lf = getattr(self, '_lemma_for', None)
+            if 'induct' in L:
+                t = guard(self.induct_fact(L, q)); p.assume(t)
+                if lf: p.tags[t.get_id()] = 'lemmafor:' + ','.join(lf)
+                prev = self.named_facts.get(name + '/induct')          # every instance of this induction lemma used so far
+                self.named_facts[name + '/induct'] = t if prev is None else z3.And(prev, t)
             for g in L.get('goals', []):
                 if isinstance(g, tuple) and g[0] not in ('assume', 'requires', 'ensures') and isinstance(g[1], str):
                     t = guard(self.spec_eval(g[1], q)); p.assume(t)
+                    if lf: p.tags[t.get_id()] = 'lemmafor:' + ','.join(lf)
                     self.named_facts[name + '/' + g[0]] = t
         finally:
             self.defs = saved
@@ -683,7 +694,9 @@ def _apply_lemmas(self, anchor, p):
         finally: self.defs = saved; self.param_cache = saved_cache
     for u in self.contract.get('use_lemmas', {}).get(anchor, []):
         mode = u[2] if len(u) > 2 else ''
-        self.use_lemma(u[0], u[1], p, anchor, conditional=(mode == 'if-applicable'), forall=(mode[7:] if mode.startswith('forall:') else None))
+        self._lemma_for = u[3] if len(u) > 3 else None          # postcondition names this instance is meant for (hypothesis slicing)
+        try: self.use_lemma(u[0], u[1], p, anchor, conditional=(mode == 'if-applicable'), forall=(mode[7:] if mode.startswith('forall:') else None))
+        finally: self._lemma_for = None
     # intermediate assertions (proof cuts): proved here, then available to everything that follows on this path
     for i, src in enumerate(self.contract.get('asserts', {}).get(anchor, [])):
         name, src = src if isinstance(src, tuple) else ('%d' % i, src)
